@@ -92,12 +92,12 @@ def make_uniform_randoms(sparse_map, n_random, rng=None):
     )
     sintheta = np.sin(cov_theta)
 
-    ra_range = np.clip(
-        [np.min(cov_phi - extra_boundary / sintheta),
-         np.max(cov_phi + extra_boundary / sintheta)],
-        0.0,
-        2.0 * np.pi,
-    )
+    # The range in right ascension is not clipped at 0 and 2*pi: the points drawn
+    # are wrapped instead, so that pixels on both sides of ra = 0 are sampled.
+    ra_range = np.array([np.min(cov_phi - extra_boundary / sintheta),
+                         np.max(cov_phi + extra_boundary / sintheta)])
+    if (ra_range[1] - ra_range[0]) > 2.0 * np.pi:
+        ra_range = np.array([0.0, 2.0 * np.pi])
     dec_range = np.clip([np.min((np.pi/2. - cov_theta) - extra_boundary),
                          np.max((np.pi/2. - cov_theta) + extra_boundary)],
                         -np.pi/2., np.pi/2.)
@@ -108,9 +108,10 @@ def make_uniform_randoms(sparse_map, n_random, rng=None):
     cov_phi_rot = cov_phi + np.pi
     test, = np.where(cov_phi_rot > 2.0 * np.pi)
     cov_phi_rot[test] -= 2.0 * np.pi
-    ra_range_rot = np.clip([np.min(cov_phi_rot - extra_boundary / sintheta),
-                            np.max(cov_phi_rot + extra_boundary / sintheta)],
-                           0.0, 2.0 * np.pi)
+    ra_range_rot = np.array([np.min(cov_phi_rot - extra_boundary / sintheta),
+                             np.max(cov_phi_rot + extra_boundary / sintheta)])
+    if (ra_range_rot[1] - ra_range_rot[0]) > 2.0 * np.pi:
+        ra_range_rot = np.array([0.0, 2.0 * np.pi])
     if ((ra_range_rot[1] - ra_range_rot[0]) < ((ra_range[1] - ra_range[0]) - 0.1)):
         # This is a more efficient range in rotated space
         ra_range = ra_range_rot
@@ -141,7 +142,7 @@ def make_uniform_randoms(sparse_map, n_random, rng=None):
 
         if rotated:
             ra_rand_temp -= 180.0
-            ra_rand_temp[ra_rand_temp < 0.0] += 360.0
+        ra_rand_temp = ra_rand_temp % 360.0
 
         valid, = np.where(sparse_map.get_values_pos(ra_rand_temp, dec_rand_temp,
                                                     lonlat=True, valid_mask=True))
